@@ -928,3 +928,11 @@ VARIANTS += [
     dict(prop="C01", name="slice-chunks-range-by-offset", benign=True,
          edits=[dict(file=CHF, find="            let slice = &this.slice[N * idx..N * (idx + 1)];", replace="            let start = N * idx;\n            let slice = &this.slice[start..start + N];")]),
 ]
+
+VPF = "ipa-core/src/protocol/ipa_prf/validation_protocol/validation.rs"
+VARIANTS += [
+    dict(prop="C03", name="verifier-excludes-smaller-domain-for-later-proofs", expect="EXCLUDE-domain|verifier:exclude-sequence",
+         edits=[dict(file=VPF, find="        let exclude_small = u128::try_from(CRF).unwrap();", replace="        let exclude_small = u128::try_from(CRF).unwrap() - 1;")]),
+    dict(prop="C03", name="verifier-right-prover-hashes-paired-with-own-twice", expect="EXCLUDE-domain|verifier:hash-order",
+         edits=[dict(file=VPF, find="            .zip(other_hashes_prover_right.hashes.iter())", replace="            .zip(my_hashes_prover_right.hashes.iter())")]),
+]
